@@ -589,16 +589,40 @@ func (sv *service) Flush(ctx context.Context, req *spb.FlushRequest) (*spb.Flush
 	return resp, err
 }
 
-func newNode(sink ribdrv.Sink, fwd bool, fault string, names Names) (*node, error) {
-	n := &node{mirror: ribdrv.NewMirror()}
-	opts := []server.ServerOpt{server.WithPostChangeRIBHook(n.mirror.Hook), server.WithVRFs([]string{names.VRF}),
+// serverOpts are the options of the reference server behind a node (the faults that are properties of the server itself,
+// not of the wire wrapper, are applied here).
+func serverOpts(fwd bool, fault string, names Names, mirror *ribdrv.Mirror) []server.ServerOpt {
+	opts := []server.ServerOpt{server.WithPostChangeRIBHook(mirror.Hook), server.WithVRFs([]string{names.VRF}),
 		server.WithRIBResolvedEntryHook(func(map[string]*aft.RIB, constants.OpType, string, constants.AFT, any, ...rib.ResolvedDetails) {})}
 	if !fwd || fault == "rejectForwardRefs" {
 		// fault rejectForwardRefs: a server that fails an operation whose references are not installed yet, although
 		// the tests (and the trace) assume a server that holds and re-orders them
 		opts = append(opts, server.WithNoRIBForwardReferences())
 	}
-	srv, err := server.New(opts...)
+	return opts
+}
+
+// ProbeRejectsForwardRefs reports whether a server built like the node of the given fault fails an entry whose group
+// is not installed yet (independent evidence that the wrapper is faulty as intended, whatever the tests send).
+func ProbeRejectsForwardRefs(fault string) (bool, error) {
+	srv, err := server.New(serverOpts(true, fault, Names{DefaultNI: srvDefault, VRF: "NON-DEFAULT-VRF"}, ribdrv.NewMirror())...)
+	if err != nil {
+		return false, err
+	}
+	p, err := abs.Concretise(abs.Op{ID: 1, NI: srvDefault, Typ: "ADD", Kind: "v4", Key: "k2", PL: "a", G: "42", NHs: []string{}, NoEID: true})
+	if err != nil {
+		return false, err
+	}
+	oks, fails, err := srv.VerifRIB().AddEntry(srvDefault, p)
+	if err != nil {
+		return false, err
+	}
+	return len(oks) == 0 && len(fails) == 1, nil
+}
+
+func newNode(sink ribdrv.Sink, fwd bool, fault string, names Names) (*node, error) {
+	n := &node{mirror: ribdrv.NewMirror()}
+	srv, err := server.New(serverOpts(fwd, fault, names, n.mirror)...)
 	if err != nil {
 		return nil, err
 	}
